@@ -40,7 +40,7 @@ S0 == [w |-> [bal |-> EmptyFn, bal2 |-> EmptyFn, seq |-> EmptyFn, ex |-> EmptyFn
               kind |-> EmptyFn, vend |-> EmptyFn, supply |-> 0, supply2 |-> 0, burnt |-> 0, burnt2 |-> 0,
               logs |-> <<>>, refund |-> 0, sd |-> {}, touched |-> {}, orig |-> EmptyFn],
        baseFee |-> 0, minGP |-> 0, maxGas |-> -1, now |-> 0, h |-> 0, blockGas |-> 0, txCount |-> 0,
-       gasOf |-> <<>>, logsOf |-> <<>>, blooms |-> <<>>]
+       gasOf |-> <<>>, logsOf |-> <<>>, blooms |-> <<>>, enableCreate |-> TRUE, enableCall |-> TRUE]
 
 TraceInit == l = 1 /\ S = S0 /\ err = <<>> /\ nAdmitted = 0 /\ cls = EmptyFn /\ skipped = <<>>
 
@@ -164,7 +164,8 @@ Settle(c, Sok) ==
 
 DoGenesis ==
   /\ Ev.ev = "Genesis"
-  /\ S' = [S0 EXCEPT !.w = WorldOfGenesis(Ev), !.baseFee = Ev.baseFee, !.minGP = Ev.minGP, !.maxGas = Ev.maxGas]
+  /\ S' = [S0 EXCEPT !.w = WorldOfGenesis(Ev), !.baseFee = Ev.baseFee, !.minGP = Ev.minGP, !.maxGas = Ev.maxGas,
+                   !.enableCreate = Ev.enableCreate, !.enableCall = Ev.enableCall]
   /\ UNCHANGED <<err, nAdmitted, cls, skipped>>
 
 DoBegin ==
